@@ -89,4 +89,53 @@ theorem run_applied_after (c : Cfg) (hc : c.legacy = false) :
         · exact Nat.le_refl _
         · have := hge q hq; omega
 
+
+/-- how one step changes the set of PendingCount calls that are between their two reads -/
+theorem step_reads (c : Cfg) (s : St) (e : Ev) (s' : St) (hs : step c s e = some s') :
+    ∀ p ∈ s'.reads, p ∈ s.reads ∨ (p = pendingCount s ∧ ∃ v, e = .pa v) := by
+  cases e
+  all_goals
+    simp only [step, fwdStep] at hs
+    repeat' split at hs
+  all_goals try (simp at hs; done)
+  all_goals
+    try injection hs with hs
+    subst hs
+    intro p hp
+  all_goals try (left; exact hp)
+  · -- pa
+    rename_i v hv
+    simp only [List.mem_cons] at hp
+    rcases hp with rfl | hp
+    · right; exact ⟨by simp [pendingCount, hv], v, rfl⟩
+    · left; exact hp
+  · -- pb
+    left; exact List.mem_of_mem_erase hp
+
+/-- every pending PendingCount call remembers the count of a state the run went through -/
+theorem reads_origin (c : Cfg) (s : St) (hr : Reachable c s) :
+    ∀ p ∈ s.reads, ∃ s0 es, Reachable c s0 ∧ pendingCount s0 = p ∧ run c s0 es = some s := by
+  refine reachable_induction (c := c)
+    (P := fun s => Reachable c s ∧ ∀ p ∈ s.reads, ∃ s0 es, Reachable c s0 ∧ pendingCount s0 = p ∧ run c s0 es = some s)
+    ⟨⟨[], rfl⟩, by simp [init]⟩ ?_ s hr |>.2
+  intro s e s' ⟨hreach, hi⟩ hs
+  refine ⟨reachable_step hreach hs, ?_⟩
+  intro p hp
+  rcases step_reads c s e s' hs p hp with hold | ⟨hnew, _⟩
+  · obtain ⟨s0, es, h0, h1, h2⟩ := hi p hold
+    exact ⟨s0, es ++ [e], h0, h1, by rw [run_append, h2]; simpa using hs⟩
+  · exact ⟨s, [e], hreach, hnew.symm, by simp [run, hs]⟩
+
+theorem run_trans (c : Cfg) : ∀ (a b : List Ev) (s s1 s2 : St), run c s a = some s1 → run c s1 b = some s2 →
+    run c s (a ++ b) = some s2 := by
+  intro a
+  induction a with
+  | nil => intro b s s1 s2 h1 h2; simp [run] at h1; subst h1; simpa using h2
+  | cons e a ih =>
+    intro b s s1 s2 h1 h2
+    simp only [List.cons_append, run] at h1 ⊢
+    cases hs : step c s e with
+    | none => simp [hs] at h1
+    | some t => simp only [hs] at h1 ⊢; exact ih b t s1 s2 h1 h2
+
 end GV.Proofs.Pipeline
